@@ -1,6 +1,6 @@
 (* Properties_C01.v — the theorems that decide property C01 on the model, each stated in full and closed by
    `exact <lemma>`; the lemmas live in the Proofs_*.v files.  Nothing else belongs in this file. *)
-From Theo Require Import Base Tokens Errors MacroExtract Parser VMModel VMSpec VMStatements GenModel Compile RefSem SemStatements Proofs_Sem C01Statements C01Stages RefSemChk Proofs_C01s2a Proofs_C01s2 C01Stages3 Proofs_C01s3.
+From Theo Require Import Base Tokens Errors MacroExtract Parser VMModel VMSpec VMStatements GenModel Compile RefSem SemStatements Proofs_Sem C01Statements C01Stages RefSemChk Proofs_C01s2a Proofs_C01s2 C01Stages3 Proofs_C01s3 C01Stages4 Regex Lexer Scan Grammar LR MacroApply Gen_Lexer Proofs_C01s4q Proofs_C01s4 Proofs_C01s4w.
 Local Open Scope Z_scope.
 
 
@@ -79,3 +79,52 @@ Theorem C01_jumps_budget :
     vm_run n (init (gr_prog r)) = Ok s -> isDone s = Ok false.
 Proof. exact C01_jumps_budget_proof. Qed.
 Print Assumptions C01_jumps_budget.
+
+Theorem C01_calls :
+  forall root r rs fuel rviews steps trace,
+    canonical4 root = true -> headers_ok root = true -> lexable_names root = true ->
+    gen true [] (Some root) = Ok r -> gr_ok r = true ->
+    abstract_source (Some root) = Some rs ->
+    run_ref_chk fuel rs = OStop rviews steps trace ->
+    sim_conclusion r rviews steps.
+Proof. exact C01_calls_proof. Qed.
+Print Assumptions C01_calls.
+
+Theorem C01_calls_budget :
+  forall root r rs n s,
+    canonical4 root = true -> headers_ok root = true -> lexable_names root = true ->
+    gen true [] (Some root) = Ok r -> gr_ok r = true ->
+    abstract_source (Some root) = Some rs ->
+    run_ref_chk n rs = OFuel ->
+    vm_run n (init (gr_prog r)) = Ok s -> isDone s = Ok false.
+Proof. exact C01_calls_budget_proof. Qed.
+Print Assumptions C01_calls_budget.
+
+Theorem C01_calls_budget_needs_headers :
+  ~ C01_calls_budget_unguarded_stmt.
+Proof. exact C01_calls_budget_needs_headers_proof. Qed.
+Print Assumptions C01_calls_budget_needs_headers.
+
+Theorem C01_parser_headers :
+  forall toks root errs, parse_tokens toks = Ok (Some root, errs) -> headers_ok root = true.
+Proof. exact C01_parser_headers_proof. Qed.
+Print Assumptions C01_parser_headers.
+
+Theorem C01_parser_shape4 :
+  forall toks root, parse_tokens toks = Ok (Some root, []) -> shape4 root = true.
+Proof. exact C01_parser_shape4_proof. Qed.
+Print Assumptions C01_parser_shape4.
+
+Theorem C01_pipeline :
+  forall files main c p root rs,
+    compile files main = Ok c -> cr_ok c = true ->
+    parse files main = Ok p -> pr_root p = Some root ->
+    canonical4 root = true -> lexable_names root = true ->
+    abstract_source (Some root) = Some rs ->
+    (forall fuel rviews steps trace, run_ref_chk fuel rs = OStop rviews steps trace ->
+       exists k s vmviews,
+         vm_run k (init (cr_prog c)) = Ok s /\ isDone s = Ok true /\
+         views s = Ok vmviews /\ Forall2 view_agrees vmviews rviews /\ (steps <= k)%nat) /\
+    (forall n s, run_ref_chk n rs = OFuel -> vm_run n (init (cr_prog c)) = Ok s -> isDone s = Ok false).
+Proof. exact C01_pipeline_proof. Qed.
+Print Assumptions C01_pipeline.
